@@ -134,7 +134,7 @@ uint DAC_VLS::access(uint pos, uint **seq) const {
   sequence[j] = get_field(levels, base_bits, ini);
   l_seq = 1;
 
-  while (bitget(((BitSequenceRG *)bS)->data, ini)) {
+  while ((j < (uint)nLevels - 1) && bitget(((BitSequenceRG *)bS)->data, ini)) {
     rankini = bS->rank1(ini) - rankLevels[j];
     j++;
 
